@@ -5,6 +5,7 @@
 //     sources, sections, properties) must be a well-formed non-nil UUID, all ids must be pairwise distinct, every entity
 //     that exists before and after the step (same kind and path) must keep its id, and ids created by the step must differ
 //     from every id that ever existed in this trace (also of deleted entities and of earlier sessions).
+// (b') Worker pools: a process with the library loaded forks P workers WITHOUT exec (cold or warm parent), same/different files.
 // (b) Schedule enumeration (E3): P real processes (fork + exec of idhelper, each with a fresh generator) and, as a
 //     variant, P threads of one process, each executing a creation history, on one file one after the other (orders
 //     A-B, B-A, A-B-A) or on different files, for EVERY assignment of start times from {T, T, T+1}: the harness owns
@@ -206,6 +207,33 @@ int main(int argc, char **argv) {
         }
         if (cid % 37 == 0) vf::sample("{\"schedule\":" + vf::jstr(sdesc) + "}", 5);
         if (vf::deadline_hit()) break;
+    }
+    // ---- worker pools: one process with the library loaded forks P workers WITHOUT exec (the generator state, if any, is
+    //      inherited); parent "cold" (never called the library) or "warm" (created a file before forking); same/different files
+    {
+        std::vector<std::string> wh(hists.begin(), hists.begin() + std::min<size_t>(hists.size(), thorough ? 72 : 30));
+        for (int warm = 0; warm < 2; warm++) for (int same = 0; same < 2; same++) for (int P = 2; P <= 3; P++) for (size_t ha = 0; ha < wh.size(); ha++) {
+            long cid = caseno_b++;
+            if (!vf::take_case(cid)) continue;
+            std::string sdesc = std::string("forked workers (no exec) P=") + std::to_string(P) + (warm ? " parent created ids before forking" : " parent never called the library") + (same ? " same file" : " different files") + " hA=" + wh[ha];
+            vf::case_desc(sdesc);
+            std::vector<std::string> others = P == 2 ? wh : std::vector<std::string>{wh[ha], wh[(ha + 1) % wh.size()], wh[(ha * 7 + 3) % wh.size()]};
+            for (size_t oi = 0; oi < others.size(); oi++) {
+                std::string hl = wh[ha] + "," + others[oi] + (P == 3 ? "," + others[(oi + 1) % others.size()] : "");
+                std::vector<std::string> ids; std::string err;
+                bool ok = run_helper({vf::scratch_file("pool.h5"), warm ? "forkwarm" : "forkcold", "w", std::to_string(T), same ? "1" : "0", hl}, ids, err);
+                if (!ok) { vf::violation("C12|schedule|helper failed", sdesc + " " + hl + " " + err); break; }
+                std::set<std::string> seen; std::string collision;
+                for (auto &id : ids) { vf::count("ids_checked"); if (!well_formed(id)) collision += "malformed:" + id + " "; if (!seen.insert(id).second) collision += id + " "; }
+                vf::count("schedules");
+                vf::distinct("schedule_kinds", std::string("pool|") + std::to_string(warm) + std::to_string(same) + std::to_string(P) + "|" + std::to_string(wh[ha].size()) + std::to_string(others[oi].size()));
+                if (!collision.empty())
+                    vf::violation(std::string("C12|forked worker processes|") + (same ? "same file" : "different files") + "|" + (warm ? "parent created ids before forking" : "parent never called the library") + "|ids collide",
+                                  sdesc + " histories " + hl + ": " + collision.substr(0, 300));
+            }
+            if (cid % 41 == 0) vf::sample("{\"schedule\":" + vf::jstr(sdesc) + "}", 5);
+            if (vf::deadline_hit()) break;
+        }
     }
     return vf::finish();
 }
